@@ -51,6 +51,11 @@ def install_stub():
         f = REPLY.get('fault', 'none')
         if f == 'timeout':
             raise requests.exceptions.ReadTimeout('stub timeout')
+        if f == 'slow':
+            # a server slower than any configured timeout: the call times out - unless the library did not
+            # apply a timeout to this request at all, in which case the late reply arrives
+            if kwargs.get('timeout') is not None:
+                raise requests.exceptions.ReadTimeout('stub: reply later than the timeout of %r' % (kwargs.get('timeout'),))
         if f == 'connect_timeout':
             raise requests.exceptions.ConnectTimeout('stub timeout')
         if f == 'connection':
@@ -266,7 +271,7 @@ def run(ctx):
                 ec.set_debug(False)
     n_body = len(cases)
     # faults x contexts x bodies that would allow
-    for fault in ['timeout', 'connect_timeout', 'connection', 'ssl']:
+    for fault in ['timeout', 'connect_timeout', 'connection', 'ssl', 'slow']:
         for ctxt in CTX:
             for scheme in ('http', 'https'):
                 for body in ['True', 'other']:
